@@ -471,4 +471,108 @@ def HLife.run : Disk × HLife → List HOp → (Disk × HLife) × List HOut
     let rest := HLife.run r.1 ops
     (rest.1, r.2 :: rest.2)
 
+/-! ### Instance 3: `AnalyticDiscipline` restored by *another interpreter*
+
+`disciplines/analytic.py`: `_sympy_funcs` and `_sympy_jac_funcs` (lambdified functions: not picklable) are in
+`_ATTR_NOT_TO_SERIALIZE`; `__setstate__` re-creates them with `_init_expressions()`.  A lambdified function
+takes its arguments *by position*; the positions are `list(expression.free_symbols)`, the iteration order of a
+`set` of SymPy symbols, which depends on the string-hash seed of the interpreter; `_run` passes the input
+values in the order of the pickled `output_names_to_symbols`.  Pickles are restored by other interpreters
+(`spawn` workers of multiprocessing, a later session calling `from_pickle`): the model is parameterized by the
+interpreter (`Env`), the writer's and the reader's are different.
+
+Expressions are polynomials with rational coefficients (what the exact stream of the harness builds). -/
+
+/-- `c * s₁ * … * sₖ` -/
+abbrev Mono := Rat × List String
+abbrev Poly := List Mono
+
+def prodOf (ρ : String → Rat) : List String → Rat
+  | [] => 1
+  | s :: r => ρ s * prodOf ρ r
+
+/-- The value of the expression under a valuation of its symbols. -/
+def Poly.eval : Poly → (String → Rat) → Rat
+  | [], _ => 0
+  | m :: r, ρ => m.1 * prodOf ρ m.2 + Poly.eval r ρ
+
+def dedup : List String → List String
+  | [] => []
+  | a :: r => if (dedup r).contains a then dedup r else a :: dedup r
+
+/-- `expression.free_symbols` as a set (a canonical enumeration of it). -/
+def Poly.symbols (p : Poly) : List String := dedup (p.flatMap Prod.snd)
+
+def eraseOne (x : String) : List String → List String
+  | [] => []
+  | s :: r => if s = x then r else s :: eraseOne x r
+
+/-- `expression.diff(x)` -/
+def Poly.diff (p : Poly) (x : String) : Poly :=
+  p.filterMap (fun m => if m.2.count x = 0 then none else some (m.1 * (m.2.count x : Nat), eraseOne x m.2))
+
+/-- An interpreter, as far as this class can tell: the order in which iterating over a set of names yields
+    its members (a function of the string-hash seed; any function in the theorems). -/
+abbrev Env := List String → List String
+
+/-- `lambdify(args, body)`: a function of positional arguments. -/
+structure Lam where
+  args : List String
+  body : Poly
+  deriving Repr
+
+/-- Calling it: the i-th value is bound to the i-th argument. -/
+def Lam.call (f : Lam) (vals : List Rat) : Rat := f.body.eval (fun n => (get (f.args.zip vals) n).getD 0)
+
+structure AD where
+  exprs : List (String × Poly)                       -- `expressions` / `_sympy_exprs`  (a dict: unique keys)
+  syms : List (String × List String)                 -- `output_names_to_symbols`
+  jacExprs : List (String × List (String × Poly))    -- `_sympy_jac_exprs`
+  funcs : List (String × Lam)                        -- `_sympy_funcs`       (in `_ATTR_NOT_TO_SERIALIZE`)
+  jacFuncs : List (String × List (String × Lam))     -- `_sympy_jac_funcs`   (in `_ATTR_NOT_TO_SERIALIZE`)
+  deriving Repr
+
+/-- `_lambdify_expressions`, run by interpreter `E`: the output functions take `list(expr.free_symbols)`, the
+    derivative functions take the symbols in the order of `output_names_to_symbols`. -/
+def AD.lambdify (E : Env) (a : AD) : AD :=
+  { a with
+    funcs := a.exprs.map (fun op => (op.1, ⟨E op.2.symbols, op.2⟩))
+    jacFuncs := a.exprs.map (fun op =>
+      (op.1, ((get a.syms op.1).getD []).map (fun n =>
+        (n, ⟨(get a.syms op.1).getD [], (get ((get a.jacExprs op.1).getD []) n).getD []⟩)))) }
+
+/-- `_init_expressions`, run by interpreter `E`: `output_names_to_symbols[o] = list({s.name: … for s in
+    expr.free_symbols})`, the derivatives with respect to these symbols, then `_lambdify_expressions`. -/
+def AD.initExpressions (E : Env) (a : AD) : AD :=
+  AD.lambdify E { a with
+    syms := a.exprs.map (fun op => (op.1, E op.2.symbols))
+    jacExprs := a.exprs.map (fun op => (op.1, (E op.2.symbols).map (fun n => (n, op.2.diff n)))) }
+
+/-- `AnalyticDiscipline(expressions)` in interpreter `E`. -/
+def AD.create (E : Env) (exprs : List (String × Poly)) : AD := AD.initExpressions E ⟨exprs, [], [], [], []⟩
+
+/-- The pickled state: everything but the two excluded members. -/
+def AD.getstate (a : AD) : AD := { a with funcs := [], jacFuncs := [] }
+
+/-- `__setstate__` in the reader's interpreter:
+    `super().__setstate__(state); self._sympy_funcs = {}; self._sympy_jac_funcs = {}; self._init_expressions()`. -/
+def AD.setstate (E : Env) (st : AD) : AD := AD.initExpressions E { st with funcs := [], jacFuncs := [] }
+
+/-- NOT the code: the tempting shortcut "everything else is pickled, only re-lambdify" (kept to show what the
+    theorem excludes, and for the self-test of the driver). -/
+def AD.setstateRelambdify (E : Env) (st : AD) : AD := AD.lambdify E { st with funcs := [], jacFuncs := [] }
+
+/-- `_run`: `func(*(input_data[s] for s in output_names_to_symbols[o]))` for every output. -/
+def AD.run (a : AD) (ρ : String → Rat) : List (String × Rat) :=
+  a.funcs.map (fun of => (of.1, of.2.call (((get a.syms of.1).getD []).map ρ)))
+
+/-- `_compute_jacobian`: every derivative function on the same positional values. -/
+def AD.jac (a : AD) (ρ : String → Rat) : List (String × List (String × Rat)) :=
+  a.jacFuncs.map (fun ofs =>
+    (ofs.1, ofs.2.map (fun nf => (nf.1, nf.2.call (((get a.syms ofs.1).getD []).map ρ)))))
+
+/-- One Jacobian entry `jac[o][n]`. -/
+def AD.jacEntry (a : AD) (ρ : String → Rat) (o n : String) : Option Rat :=
+  (get (a.jac ρ) o).bind (fun r => get r n)
+
 end GV.C20
